@@ -49,11 +49,13 @@ func NewProcessor(queue chan Operator, buffer int, threads int) (p *Processor) {
 		p.wg.Add(1)
 		go func() {
 			<-p.work
+			vstep(p, "proc.start")
 			defer func() {
 				if err := recover(); err != nil {
 					p.out <- Result{nil, fmt.Errorf("concurrent: processor panic: %v", err)}
 				}
 				p.work <- struct{}{}
+				vstep(p, "proc.token_returned")
 				if len(p.work) == p.threads {
 					close(p.out)
 				}
@@ -61,10 +63,12 @@ func NewProcessor(queue chan Operator, buffer int, threads int) (p *Processor) {
 			}()
 
 			for input := range p.in {
+				vstep(p, "proc.recv")
 				v, e := input.Operation()
 				if p.out != nil {
 					p.out <- Result{v, e}
 				}
+				vstep(p, "proc.sent")
 				select {
 				case <-p.stop:
 					return
